@@ -207,7 +207,7 @@ class World:
                   channels=hset([(c, self.member[(n, c)]) for c in sp.chans]),
                   invited_to=hset([(c, self.invited[(n, c)]) for c in sp.chans]),
                   last_activity=self.T('act_' + n), signon=self.T('signon_' + n),
-                  history_entry=S('NickHistoryEntry', username=mkstring(sp.uname(n)), hostname=mkstring(sp.hosts.get(n, '127.0.0.1')), realname=mkstring('Real ' + n), signon=self.T('hsignon_' + n)))
+                  history_entry=S('NickHistoryEntry', username=mkstring(sp.uname(n)), hostname=mkstring(sp.hosts.get(n, '127.0.0.1')), realname=mkstring('Real ' + n), signon=self.T('signon_' + n)))        # (User::new: the record carries the user's own sign-on time)
             cell = Cell(u); self.user_cells[n] = cell
             users.slots.append([n, self.reg[n], cell])
         M.env['wall_min'] = z3.BitVecVal(1000, 64)
